@@ -242,7 +242,8 @@ func verifStubSFDo(g *singleflight.Group, key string, fn func() (any, error)) (a
 	}
 	ghostLog("sf.led")
 	v, err := fn()
-	return v, err, false
+	// singleflight reports shared=true to every caller of a flight that had a duplicate, including the one that ran it
+	return v, err, nondetBool("sf.someone.joined")
 }
 
 func verifStubSFDoChan(g *singleflight.Group, key string, fn func() (any, error)) <-chan singleflight.Result {
